@@ -291,7 +291,13 @@ pub unsafe fn io_uring_enter(fd: i32, to_submit: u32, min_complete: u32, flags: 
                 x if x == u64::MAX - 1 => " [driver: notifier]",
                 _ => "",
             };
-            format!("kernel: submit #{} {} fd {} len {}{ud}", op.seq, ops::op_name(op.opcode), op.fd, op.len)
+            let what = if op.opcode == ops::OP_POLL_ADD {
+                let m = op.opflags & 0xffff;
+                format!("for {}{}", if m & libc::POLLIN as u32 != 0 { "readable" } else { "" }, if m & libc::POLLOUT as u32 != 0 { "writable" } else { "" })
+            } else {
+                format!("len {}", op.len)
+            };
+            format!("kernel: submit #{} {} fd {} {what}{ud}", op.seq, ops::op_name(op.opcode), op.fd)
         });
         sig(0x4b00 + op.opcode as u64);
         for (a, l) in op.ranges() {
